@@ -199,13 +199,19 @@ def _apply_step(g, doc, base, op, a, b):
   if op == 4:                      # set / delete a tag
     name = vp.pick(names, a % len(names))
     line = g.line(name)
-    desc = "tag(%r, %d)" % (name, b % 3)
+    desc = "tag(%r, %d)" % (name, b % 4)
     if line is None or name not in doc.ids():
       return gfapy.NotFoundError(name), False, desc
-    k = b % 3
+    k = b % 4
+    with NoTracing():
+      if k == 0 and any(x.startswith("xx:") and not x.startswith("xx:i:") for x in fields(doc.find(name)[0])):
+        # assigning an integer to an existing tag of another datatype is not a valid assignment (C18): outside this domain
+        return None, None, desc
     try:
       if k == 0: line.set("xx", 5)
       elif k == 1: line.set("yy", "a b")
+      elif k == 3:
+        line.delete("xx"); line.set("xx", "q")       # replace the tag by one of another datatype
       else: line.delete("xx")
     except gfapy.Error as e:
       return e, True, desc
@@ -218,6 +224,8 @@ def _apply_step(g, doc, base, op, a, b):
       elif k == 1:
         f = f + ["yy:Z:a b"] if not any(x.startswith("yy:") for x in f) else \
             [("yy:Z:a b" if x.startswith("yy:") else x) for x in f]
+      elif k == 3:
+        f = [x for x in f if not x.startswith("xx:")] + ["xx:Z:q"]
       else:
         f = [x for x in f if not x.startswith("xx:")]
       doc.lines[doc.lines.index(t)] = "\t".join(f)
@@ -252,7 +260,7 @@ def step_table(base, ops):
     elif op == 1: out += [(1, a, 0) for a in range(npool)]
     elif op == 2: out += [(2, a, b) for a in range(nn - 1) for b in range(6)]
     elif op == 3: out += [(3, a, 0) for a in range(8)]
-    elif op == 4: out += [(4, a, b) for a in (0, 3) for b in range(3)]
+    elif op == 4: out += [(4, a, b) for a in (0, 3) for b in range(4)]
     elif op == 5: out += [(2, a, b) for a in range(nn - 1) for b in (0, 4)]   # rename to a fresh name / onto a placeholder's id
   return out
 
